@@ -540,7 +540,20 @@ def norm(a, p=2, dim=None, keepdim=False):
 
 
 def prod(a, dim=None, keepdim=False):
-    raise Unsupported("prod")
+    """product along one dimension, modelled only where it is trivial: every factor is provably 1 (e.g. the signs of a
+    positive diagonal) -> ones; anything else is outside the model"""
+    e = a.elem_fn()
+    if e is None or dim is None or keepdim:
+        raise Unsupported("prod")
+    c = sym.ctx()
+    idx = tuple(z3.Int(c.fresh_name(f"w!prod{j}")) for j in range(a.dim()))
+    v = e(idx)
+    one = z3.RealVal(1) if v.sort() == z3.RealSort() else z3.IntVal(1)
+    if c.feasible(z3.And(a.in_bounds(idx), v != one)) is False:
+        d = T._norm_dim(dim, a.dim())
+        shape = tuple(s_ for k_, s_ in enumerate(a.shape) if k_ != d)
+        return SymTensor.from_elem(shape, a.dtype, lambda i: one)
+    raise Unsupported("prod of factors that are not all 1")
 
 
 def mean(a, dim=None, keepdim=False):
